@@ -190,6 +190,10 @@ def q_mol_api(c, A, ctx):
             "rotated": m.rotated(rot, origin=(0, 0, 0)).positions,
             "transformed": m.transformed(rotation=rot, translation=np.array([1.0, 0.0, 0.0])).positions,
             "masked": m.mask(np.arange(len(m)) < 2).positions,
+            # the same helpers with other argument patterns
+            "shift_only": m.transformed(translation=np.array([1.0, 0.0, 0.0])).positions,
+            "rot_only": m.transformed(rotation=rot).positions, "rot_default_origin": m.rotated(rot).positions,
+            "no_op": m.transformed().positions,
             "asym_symops": m.asym_symops, "charges": m.partial_charges, "dipole": m.molecular_dipole_moment,
             "esp": m.electrostatic_potential(pts), "to_next": m.distance_to(mols[(k + 1) % len(mols)]),
             "name": m.name, "sd": m.shape_descriptors(l_max=2),
@@ -197,9 +201,51 @@ def q_mol_api(c, A, ctx):
     return out
 
 
+def _public_properties(obj):
+    """Every public property of a state object, read the way a user would
+    (a getter that raises is an answer too)."""
+    import inspect
+
+    out = {}
+    for name in sorted(dir(type(obj))):
+        if name.startswith("_") or not isinstance(inspect.getattr_static(type(obj), name), property):
+            continue
+        try:
+            out[name] = getattr(obj, name)
+        except Exception as e:  # noqa: BLE001
+            out[name] = "raised:" + type(e).__name__
+    return out
+
+
+def _try(f):
+    try:
+        return f()
+    except Exception as e:  # noqa: BLE001
+        return "raised:" + type(e).__name__
+
+
 def q_accessors(c, A, ctx):
     pts = np.array([[0.1, 0.2, 0.3], [1.5, -0.25, 0.75]])
+    sg, uc, au = c.space_group, c.unit_cell, c.asymmetric_unit
+    ops_api = [[_public_properties(s), _try(lambda s=s: int(s.inverted().integer_code)), _try(s.is_identity),
+                _try(lambda s=s: s.apply(pts)), repr(s)] for s in list(sg.symmetry_operations)[:6]]
+    objects = {
+        # the read-only API of the state objects themselves
+        "space_group": [_public_properties(sg), _try(sg.crystal17_spacegroup_symbol),
+                        _try(sg.has_hexagonal_rhombohedral_choices),
+                        _try(lambda: [int(s.integer_code) for s in sg.ordered_symmetry_operations()]),
+                        _try(lambda: [int(s.integer_code) for s in sg.reduced_symmetry_operations()]),
+                        _try(lambda: sg.apply_all_symops(pts)), repr(sg), len(sg)],
+        "operations": ops_api,
+        "unit_cell": [_public_properties(uc), _try(uc.volume), repr(uc),
+                      [_try(lambda k=k: getattr(uc, k)) for k in ("cell_type", "cell_type_index", "unique_parameters",
+                                                                   "unique_parameters_deg", "lengths", "angles",
+                                                                   "direct", "inverse")]],
+        "asymmetric_unit": [_public_properties(au), repr(au), len(au), au.atomic_numbers, au.positions,
+                            [str(x) for x in au.labels]],
+    }
     return {
+        "objects": objects,
         "site_positions": c.site_positions, "site_atoms": c.site_atoms, "nsites": c.nsites,
         "site_labels": [str(x) for x in c.site_labels],
         "symops": [int(s.integer_code) for s in c.symmetry_operations],
@@ -481,6 +527,16 @@ KW_QUERIES = {
 KW_SAFE = ["uc_atoms", "slab", "air", "asur", "density", "res", "cartsym", "repr", "accessors", "cif", "cif_data",
            "gulp", "crystal17", "turbomole", "cif_twin", "sl_cif_named", "sl_fmt", "vasp_inputs",
            "poscar", "sl_cif", "sl_res", "sl_poscar", "sl_contcar"]  # fmt: skip
+
+
+# default-argument queries that consume the bond graph without being the same
+# query as one of the keyword ones; a keyword crystal may be asked them in a
+# memo lifetime (the span between two state changes) in which no keyword query
+# was issued - and the other way round
+KW_DEFAULT_CONSUMERS = ["menv", "as_P1", "supercell", "transl", "charges", "mol_dict"]
+# state changes a keyword crystal may undergo (the normalisation builds a bond
+# graph of its own with default arguments and may leave it behind when it raises)
+KW_MUTATORS = ["toH", "toR", "toX", "flip2", "flip3", "flip1001"]
 
 
 # name -> (function, role) ; role: P = populates memos, C = consumes memos,
